@@ -1,6 +1,6 @@
 (* C12 property theorems ONLY (each closed by an already proved lemma) + assumptions. *)
 From Coq Require Import String List Reals Lra Lia.
-From RV Require Import Common.Num Common.RealNum C12.Model C12.Proofs C12.ProofsR C12.Sites.
+From RV Require Import Common.Num Common.RealNum C12.Model C12.Proofs C12.ProofsR C12.ProofsL C12.Sites.
 Import ListNotations.
 Open Scope R_scope.
 
@@ -68,6 +68,39 @@ Theorem C12_mercurius_trace_com : forall ms qs na, merc_ok ms qs na -> merc_com 
 Proof. exact merc_com_is_com. Qed.
 Print Assumptions C12_mercurius_trace_vel_inverse.
 
+(* Jacobi coordinates diagonalise the mass inner product: for two scalar components a, b of one particle set (all
+   active), sum m a b = M A0 B0 + sum_{i>=1} mu_i A_i B_i with (A, B) the Jacobi components, A0, B0 the centre-of-mass
+   slot and mu_i = m_i eta_{i-1}/eta_i.  Instances: kinetic energy (a = b = v) and each component of the total angular
+   momentum (a = position, b = velocity component): no cross terms between different Jacobi bodies. *)
+Theorem C12_jacobi_mass_inner_product : forall m0 a0 b0 ms as_ bs A B M sa sb,
+  length as_ = length ms -> length bs = length ms -> m0 <> 0 -> etas_ok ms m0 ->
+  jac_fwd_act RNum (combine ms as_) m0 (m0 * a0) = (A, (M, sa)) ->
+  jac_fwd_act RNum (combine ms bs) m0 (m0 * b0) = (B, (M, sb)) ->
+  m0 * a0 * b0 + sum_mab ms as_ bs = M * (sa / M) * (sb / M) + wsum_mu ms A B m0.
+Proof. exact jacobi_mass_inner_product. Qed.
+Print Assumptions C12_jacobi_mass_inner_product.
+
+(* ... where jac_fwd_act with that start state is exactly what the whole routine jac_fwd (the term compared with the
+   C code) computes when all particles are active: slot 0 = s/M, the rest = the loop's outputs *)
+Theorem C12_jac_fwd_all_active : forall m0 mr q0 qr A M s,
+  length qr = length mr ->
+  jac_fwd_act RNum (combine mr qr) m0 (m0 * q0) = (A, (M, s)) ->
+  jac_fwd RNum (m0 :: mr) (q0 :: qr) (S (length mr)) = ((s * (1 / M)) :: A, M).
+Proof. exact jac_fwd_all_active. Qed.
+
+Theorem C12_jacobi_angular_momentum_z :
+  forall m0 x0 y0 vx0 vy0 ms xs ys vxs vys X Y VX VY M sx sy svx svy,
+  length xs = length ms -> length ys = length ms -> length vxs = length ms -> length vys = length ms ->
+  m0 <> 0 -> etas_ok ms m0 ->
+  jac_fwd_act RNum (combine ms xs) m0 (m0 * x0) = (X, (M, sx)) ->
+  jac_fwd_act RNum (combine ms ys) m0 (m0 * y0) = (Y, (M, sy)) ->
+  jac_fwd_act RNum (combine ms vxs) m0 (m0 * vx0) = (VX, (M, svx)) ->
+  jac_fwd_act RNum (combine ms vys) m0 (m0 * vy0) = (VY, (M, svy)) ->
+  (m0 * x0 * vy0 + sum_mab ms xs vys) - (m0 * y0 * vx0 + sum_mab ms ys vxs)
+  = (M * (sx / M) * (svy / M) + wsum_mu ms X VY m0) - (M * (sy / M) * (svx / M) + wsum_mu ms Y VX m0).
+Proof. exact jacobi_angular_momentum_z. Qed.
+Print Assumptions C12_jacobi_angular_momentum_z.
+
 (* how the integrators apply them (table of call sites regenerated from the C text on every run): every one of the
    WHFast and SABA call sites passes the SAME active/test-particle split and N = the real particles (or all particles, in the
    kernels that exclude variational particles), every forward transformation used has its inverse used, and the
@@ -94,8 +127,8 @@ Print Assumptions C12_integrator_call_sites_use_one_split.
 Example C12_hypotheses_inhabited :
   let ms := [1; 1/1000; 0; 3] in let qs := [1/2; -2; 7; 5] in
   jac_ok ms qs 3 /\ dh_ok ms qs 3 /\ whds_ok ms qs 3 /\ bary_ok ms qs 3 /\ merc_ok ms qs 3 /\
-  jac_ok_r ms qs (1 + 1/1000 + 0) 3.
+  jac_ok_r ms qs (1 + 1/1000 + 0) 3 /\ etas_ok [1/1000; 0; 3] 1.
 Proof.
-  cbv zeta. unfold whds_ok, jac_ok, dh_ok, bary_ok, merc_ok, jac_ok_r, act_list. cbn.
+  cbv zeta. unfold whds_ok, jac_ok, dh_ok, bary_ok, merc_ok, jac_ok_r, act_list, etas_ok. cbn.
   repeat split; try lia; try lra; repeat constructor; lra.
 Qed.
